@@ -5,7 +5,11 @@ BASE=${2:-/tmp/mut}
 TAG=$(basename $BASE)
 ls -d $BASE/C*/m[0-9]* | while read d; do
   [ -f $d/patch.diff ] && [ -f $d/demo_test.go ] && [ -f $d/notes.md ] || continue
-  [ -f $d/eval.json ] && [ -f $d/confirm.json ] && continue
+  case "${MUT_MODE:-full}" in
+    own) [ -f $d/eval_own.json ] && continue ;;
+    confirm) [ -f $d/confirm.json ] && continue ;;
+    *) [ -f $d/eval.json ] && [ -f $d/confirm.json ] && continue ;;
+  esac
   echo $d
 done > /tmp/mutqueue.txt
 wc -l /tmp/mutqueue.txt
